@@ -20,6 +20,7 @@ class Graph:
         self.parent = {}          # state id -> edge index that first reached it (BFS tree)
         self.init = None
         self.meta = None
+        self.ep = {}              # state id -> leaves where a frozen episode is the identity (Manager.tla EpSafe)
 
     def intern(self, st):
         key = json.dumps(st, sort_keys=True)
@@ -42,6 +43,8 @@ def parse_tlc_output(path):
             if tag == "TR":
                 s, lab, d = g.intern(v[1]), v[2], g.intern(v[3])
                 g.edges.append((s, lab, d))
+                if len(v) > 4 and v[4]:
+                    g.ep[d] = list(v[4])
             elif tag == "META":
                 g.meta = v[1]
             elif tag == "INIT":
@@ -129,11 +132,20 @@ def worker_main(jobfile, shard, nshards):
     def fresh():
         return ml.World(uni, init["mem"], taskspec)
 
+    epi = {"cur": None}     # (position in the path, leaf) of the frozen episode inserted into the current replay, or None
+
     def fail(tags, summary, ei, detail, known=None):
+        if epi["cur"] is not None:
+            # the same edge conformed without the episode: what differs is the freeze/assign/unfreeze in the history
+            tags, known = ["C17"], None
+            summary = f"after freeze_tree(); {epi['cur'][1]} = <its current value>; unfreeze_tree() inserted before step {epi['cur'][0]} of the path: " + summary
+            detail = dict(detail, episode=list(epi["cur"]))
         if len(fails) < 200:
             fails.append({"tags": tags, "summary": summary, "edge": ei, "detail": detail, "known": known,
                           "path": [g.edges[i][1] for i in path_to(g, g.edges[ei][0])] + [g.edges[ei][1]]})
         stats["fail"] += 1
+        failed_now[0] += 1
+    failed_now = [0]
 
     # fault edges: group candidates by (src, action key)
     groups = collections.OrderedDict()
@@ -158,11 +170,25 @@ def worker_main(jobfile, shard, nshards):
         groups = collections.OrderedDict((k, v) for k, v in groups.items() if keepmask[k])
     todo = [k for i, k in enumerate(groups) if i % nshards == shard]
 
+    def episode(w, st, leaf):
+        """freeze_tree(); leaf = <current value>; unfreeze_tree(): the identity wherever the specification says EpSafe"""
+        v = ml.spec_state(g.states[st])["mem"][leaf]
+        for lab_ in ({"a": "Freeze"}, {"a": "SetValue", "l": leaf, "v": v}, {"a": "Unfreeze"}):
+            r = ml.execute(w, lab_)
+            if r["exc"] is not None:
+                return f"{lab_['a']} raised {r['exc']!r}"
+        return None
+
     def go_to(src, ei):
         """fresh world driven along the BFS path to src; returns None if the prefix does not conform"""
         w = fresh()
-        for pi in path_to(g, src):
+        for k, pi in enumerate(path_to(g, src)):
             ps, plab, pd = g.edges[pi]
+            if epi["cur"] is not None and epi["cur"][0] == k:
+                why = episode(w, ps, epi["cur"][1])
+                if why:
+                    fail(["C17"], why, ei, {})
+                    return None
             fault = plab.get("k") if plab.get("exc") == "Fault" else None
             res = ml.execute(w, plab, fault=fault)
             if res.get("world") is not None:
@@ -185,16 +211,21 @@ def worker_main(jobfile, shard, nshards):
                 else:
                     stats["prefix_diverged"] += 1       # reported by that edge's own replay
                     return None
+        if epi["cur"] is not None and epi["cur"][0] == len(path_to(g, src)):
+            why = episode(w, src, epi["cur"][1])
+            if why:
+                fail(["C17"], why, ei, {})
+                return None
         return w
 
-    for key in todo:
+    def process(key):
         eis = groups[key]
         s, lab, d = g.edges[eis[0]]
         w = go_to(s, eis[0])
         if w is None:
             stats["skipped_prefix"] += 1
-            continue
-        stats["edges"] += len(eis)
+            return
+        stats["edges" if epi["cur"] is None else "episode_edges"] += len(eis)
         isfault = lab.get("exc") == "Fault"
         res = ml.execute(w, lab, fault=lab.get("k") if isfault else None)
         w0 = w
@@ -204,8 +235,8 @@ def worker_main(jobfile, shard, nshards):
             obs = ml.abs_state(w)
         except ml.Uncovered as u:
             stats["uncovered"] += 1
-            continue
-        if lab.get("trig"):
+            return
+        if lab.get("trig") and epi["cur"] is None:
             stats["nontrivial"] += 1
         if len(samples) < 3 and lab.get("trig"):
             samples.append({"path": [g.edges[i][1].get("a") for i in path_to(g, s)], "action": {k: v for k, v in lab.items() if k != "idx"},
@@ -223,13 +254,13 @@ def worker_main(jobfile, shard, nshards):
             xtag = "C13"
         if not okexc and xtag:
             fail([xtag], f"{lab['a']}({lab.get('kind', lab.get('args'))}): raised {got}: {res['exc']!r}", eis[0], {"want": want, "got": got})
-            continue
+            return
         if not okexc:
             tags = ["C18"] if isfault else (["C17"] if (frozen_ctx or want == "ValueError") else ["C01", "C03"])
             if got not in (None, "ValueError", "Fault"):
                 tags = sorted(set(tags + ["C03", "C01"]))
             fail(tags, f"{lab['a']}: expected outcome {want}, got {got}: {res['exc']!r}", eis[0], {"want": want, "got": got})
-            continue
+            return
         # ---- fault edges: pick the spec successor matching the observed prefix ---------------------------
         if isfault:
             cands = [(g.edges[ei][1], ml.spec_state(g.states[g.edges[ei][2]])) for ei in eis]
@@ -250,7 +281,7 @@ def worker_main(jobfile, shard, nshards):
                     known = "struct-cycle-order"
                 fail(["C18"], f"fault at position {lab['k']} of {lab['a']}({lab['l']}): observed runs {runs} / state not one of the {len(cands)} spec successors"
                      , eis[0], {"runs": runs, "diff": repr(diff)[:600], "candidates": [c["ran"] for c, _ in cands]}, known)
-            continue
+            return
         exp = ml.spec_state(g.states[d])
         diff = ml.state_diff(obs, exp)
         # ---- shadows: managers that must not be affected by what happens to this one (C12) --------------
@@ -263,7 +294,7 @@ def worker_main(jobfile, shard, nshards):
                 pass
         if shbad:
             fail(["C12"], f"after {lab['a']}: the other side of an earlier pickle round trip changed: {shbad}", eis[0], {"diff": shbad})
-            continue
+            return
         # ---- C02: set, multiplicity, order --------------------------------------------------------------
         ordkind = None
         if lab["a"] == "GenFun":
@@ -299,15 +330,15 @@ def worker_main(jobfile, shard, nshards):
                 tags = {xtag}
             fail(sorted(tags), f"{lab['a']}({lab.get('l', lab.get('t', lab.get('kind', '')))}): state differs from the specification in {comps}: {repr(diff)[:300]}",
                  eis[0], {"diff": repr(diff)[:1500]}, known)
-            continue
+            return
         # ---- C03: queries ---------------------------------------------------------------------------------
-        if queries and "idx" in lab and "rdeps" in lab["idx"]:
+        if queries and epi["cur"] is None and "idx" in lab and "rdeps" in lab["idx"]:
             stats["query_edges"] += 1
             try:
                 oi = ml.abs_idx(w)
             except ml.Uncovered:
                 stats["uncovered"] += 1
-                continue
+                return
             bad = []
             for name in ("rdeps", "deptasks", "tartasks", "rtasks"):
                 e = {tuple(p) for p in lab["idx"][name]}
@@ -315,7 +346,7 @@ def worker_main(jobfile, shard, nshards):
                     bad.append((name, sorted(oi[name] - e), sorted(e - oi[name])))
             if bad:
                 fail(["C03"] + (["C17"] if frozen_ctx else []), f"after {lab['a']}: index supports differ from the derived ones: {bad[:2]}", eis[0], {"bad": repr(bad)[:1500]})
-                continue
+                return
             # per-location queries
             qbad = []
             for l in uni["leaves"]:
@@ -352,16 +383,41 @@ def worker_main(jobfile, shard, nshards):
                     qbad.append(("fresh-manager", repr(ex)[:200]))
             if qbad:
                 fail(["C03"] + (["C17"] if frozen_ctx else []), f"after {lab['a']}: query answers differ: {qbad[:3]}", eis[0], {"qbad": repr(qbad)[:1500]})
+
+    import random as _random
+    erng = _random.Random(f"{job.get('seed', 0)}/{shard}/episodes")
+    nep = job.get("episodes", 0)
+    for key in todo:
+        epi["cur"] = None
+        failed_now[0] = 0
+        process(key)
+        if not nep or failed_now[0] or not isinstance(key[0], str):
+            continue        # episodes only on plain (non-fault) edges that conformed without them
+        ei = groups[key][0]
+        src = g.edges[ei][0]
+        path = path_to(g, src)
+        sts = [g.edges[pi][0] for pi in path] + [src]
+        cands = []
+        for k, st in enumerate(sts):
+            leaves = uni["leaves"] if st == g.init else g.ep.get(st, [])
+            cands.extend((k, l) for l in leaves)
+        if not cands:
+            continue
+        erng.shuffle(cands)
+        for c in (cands if nep < 0 else cands[:nep]):
+            epi["cur"] = c
+            process(key)
+        epi["cur"] = None
     print(json.dumps({"fails": fails, "stats": dict(stats), "samples": samples}, default=str))
 
 
 # ---------------------------------------------------------------------------------------------------------
 # main-process side
 
-def run_replay(g, universe, keys, scratch, mode, hashseeds, nshards, queries=True, timeout=3600, fan_keep=1.0, seed=0):
+def run_replay(g, universe, keys, scratch, mode, hashseeds, nshards, queries=True, timeout=3600, fan_keep=1.0, seed=0, episodes=0):
     """-> (fails, stats, samples) aggregated over hash seeds and shards"""
     job = {"graph": g, "universe": universe, "keys": keys, "scratch": scratch, "mode": mode, "queries": queries,
-           "fan_keep": fan_keep, "seed": seed}
+           "fan_keep": fan_keep, "seed": seed, "episodes": episodes}
     fd, jobfile = tempfile.mkstemp(prefix="xdv-job-", suffix=".pickle")
     with os.fdopen(fd, "wb") as fh:
         pickle.dump(job, fh)
